@@ -10,7 +10,10 @@ import (
 	"hash/fnv"
 	"math/rand"
 	"os"
+	"runtime"
 	"strings"
+	"sync"
+	"sync/atomic"
 
 	"github.com/vmware/go-ipfix/pkg/collector"
 	"github.com/vmware/go-ipfix/pkg/entities"
@@ -269,6 +272,83 @@ func runC04(d *drv, r *rand.Rand, thorough bool) {
 			s.recv(a.f(bigDoms[r.Intn(4)], 256+r.Intn(6)))
 		}
 	}
+	runC04Race(d, r, thorough)
+}
+
+// runC04Race: two sessions send the FIRST templates of one new observation domain at the same instant (different
+// template ids, spin barrier): both are stored.  Thousands of attempts, because the window in which an
+// installation could be lost is a few instructions wide.  Logged as two Recv events per attempt (they commute),
+// the store snapshot on the second one, taken after both calls returned.
+func runC04Race(d *drv, r *rand.Rand, thorough bool) {
+	attempts := 8000
+	if thorough {
+		attempts = 80000
+	}
+	runtime.GOMAXPROCS(4)
+	defer runtime.GOMAXPROCS(runtime.NumCPU())
+	var s *sess
+	var stopDrain chan struct{}
+	for a := 0; a < attempts; a++ {
+		if a%40 == 0 {
+			if stopDrain != nil {
+				close(stopDrain)
+			}
+			s = d.open(collector.DecodingModeStrict, "race")
+			stopDrain = make(chan struct{})
+			go func(cp *collector.CollectingProcess, stop chan struct{}) { // decodePacket hands every message to the consumer
+				for {
+					select {
+					case <-cp.GetMsgChan():
+					case <-stop:
+						return
+					}
+				}
+			}(s.c.CP, stopDrain)
+		}
+		dom := uint32(1000 + a)
+		msgs := [2][]byte{tmplMsg(dom, 256, []absv.Spec{sU8, sU16}), tmplMsg(dom, 257, []absv.Spec{sU32})}
+		base := int(s.c.CP.GetNumRecordsReceived())
+		var ready atomic.Int32
+		var wg sync.WaitGroup
+		var out [2]*entities.Message
+		var errs [2]error
+		for g := 0; g < 2; g++ {
+			wg.Add(1)
+			go func(g int) {
+				defer wg.Done()
+				ready.Add(1)
+				for ready.Load() < 2 { // spin: both enter the collector together
+				}
+				out[g], errs[g] = s.c.CP.VerifDecodePacket(msgs[g], s.c.Addr)
+			}(g)
+		}
+		wg.Wait()
+		total := int(s.c.CP.GetNumRecordsReceived())
+		for g := 0; g < 2; g++ {
+			d.evals++
+			ev := vt.Ev{"e": "Recv", "bytes": vt.B(msgs[g]), "kind": "Err", "nmsg": base + (total-base)*(g+1)/2}
+			if errs[g] == nil && out[g] != nil {
+				tid, fields := coll.ProjectTemplate(out[g])
+				ev["kind"], ev["tid"], ev["fields"] = "Tmpl", tid, fields
+			}
+			if g == 1 {
+				st := make([]any, 0)
+				for _, t := range s.c.CP.VerifTemplates() {
+					fs := make([]absv.Field, len(t.IEs))
+					for i := range t.IEs {
+						fs[i] = absv.FieldOf(&t.IEs[i])
+					}
+					st = append(st, vt.Ev{"dom": vt.Limbs(t.ObsDomainID), "tid": int(t.TemplateID), "fields": fs})
+				}
+				ev["store"] = st
+			}
+			d.w.Emit(ev)
+		}
+	}
+	if stopDrain != nil {
+		close(stopDrain)
+	}
+	d.dist[uint64(attempts)] = true
 }
 
 // ------------------------------------------------------------------------------------------ C17
